@@ -458,3 +458,35 @@ Theorem C16_gen_end_to_end_conform : forall s fs encmap us rq pi b sub fm p t,
   fm_exact c fs (snd (fst (gen_call c rq pi fs b sub fm))).
 Proof. exact gen_end_to_end_conform. Qed.
 Print Assumptions C16_gen_end_to_end_conform.
+
+(* ------------------------------------------------------------ third proof-only round: the served variant, regenerated program *)
+Require Import Verif.Proofs.C16_e.
+
+(* every 200 answer of one call of the regenerated __call__ -- any configuration, either way of obtaining the path tuple,
+   whatever the filemap has cached from this file system -- is the content of an existing file p, labelled with p's
+   encoding, acceptable to the client of this request, and no acceptable existing candidate is smaller *)
+Theorem C16_gen_call_variant_ok : forall c rq pi fs b sub fm,
+  fm_exact c fs fm ->
+  forall body enc vary, out_resp (fst (fst (gen_call c rq pi fs b sub fm))) = R200 body enc vary ->
+  exists name p,
+    let keyed := fst (sizes fs (fst (probe c fs (candidates c name)))) in
+    spec_acceptable rq enc = true /\
+    (exists sz, fs_stat fs p = Some (EFile sz body)) /\
+    exists k, In (k, (p, enc)) keyed /\ k = entry_size (fs_stat fs p) /\
+      forall k' f', In (k', f') keyed -> spec_acceptable rq (snd f') = true -> k <= k'.
+Proof. exact gen_call_variant_ok. Qed.
+Print Assumptions C16_gen_call_variant_ok.
+
+(* ... from the configuration as written: written configuration -> gen_init -> gen_call; no hypothesis on what was written *)
+Theorem C16_gen_end_to_end_variant : forall s fs encmap us rq pi b sub fm,
+  let c := view_config s (created_view s encmap us) in
+  fm_exact c fs fm ->
+  forall body enc vary, out_resp (fst (fst (gen_call c rq pi fs b sub fm))) = R200 body enc vary ->
+  exists name p,
+    let keyed := fst (sizes fs (fst (probe c fs (candidates c name)))) in
+    spec_acceptable rq enc = true /\
+    (exists sz, fs_stat fs p = Some (EFile sz body)) /\
+    exists k, In (k, (p, enc)) keyed /\ k = entry_size (fs_stat fs p) /\
+      forall k' f', In (k', f') keyed -> spec_acceptable rq (snd f') = true -> k <= k'.
+Proof. exact gen_end_to_end_variant. Qed.
+Print Assumptions C16_gen_end_to_end_variant.
